@@ -56,6 +56,31 @@ chk("C10", "model_checking",
     "executions trace-validated by TLC", "DESIGN.md section 4, C10")
 
 
+chk("C03", "model_checking",
+    "TLC enumerates (spec/GenPrec.tla) all 18x18 ordered operator pairs in both nesting positions and the three "
+    "prefix operators over / under / right of every binary operator, searches a leaf domain for operands under "
+    "which a tree and its mis-grouped sibling evaluate differently (745 of 810 shapes have such leaves), and "
+    "renders each tree minimally from the documented table and fully parenthesised. Both texts run through the "
+    "real parser/compiler/VM; TLC validates both executions against RefSem; a difference between the two texts is "
+    "a violation. Plus postfix / assignment shapes and seeded random trees of depth 3-4.",
+    "The minimal rendering is derived from the documented table (PrecOf); deviations shared by both renderings are "
+    "operator semantics (C09), counted as semantic_drift, not reported here.",
+    "TLA+ precedence table + reference evaluation by TLC; TLC-generated texts replayed into the implementation; "
+    "executions trace-validated by TLC", "DESIGN.md section 4, C03")
+
+chk("C05", "model_checking",
+    "TLC enumerates (spec/GenMatch.tla) scrutinee x pattern tables over int/char/byte/string domains: literal, "
+    "alternation, exclusive and inclusive ranges with every boundary placement (incl. empty / reversed), one or two "
+    "arms, with and without default, every scrutinee incl. one outside the domain, scrutinee behind a probe "
+    "(evaluated once), mixed-type arms (must be rejected). Python enumerates all loop nests to depth 2 (3) with "
+    "plain / labelled break / continue at every position and if-chains over the truthiness domain. All executions "
+    "validated by TLC against RefSem.",
+    "A scrutinee of another kind than a range pattern is unspecified; bare nested blocks in tail position are not "
+    "generated (unspecified block value).",
+    "TLA+ reference semantics evaluated by TLC; enumerated programs replayed into the implementation; executions "
+    "trace-validated by TLC", "DESIGN.md section 4, C05")
+
+
 def main():
     props = [json.loads(l)["id"] for l in open(os.path.join(VERIF, "properties.jsonl"))]
     na = [{"property_id": p, "reason": NOT_APPLICABLE.get(p, "check not built yet in this round (planned, see DESIGN.md section 8)")}
